@@ -33,7 +33,7 @@ def norm_written(node):
     return {
         "kind": "message",
         "type": c.get("message_type"),
-        "fields": {k: v for k, v in c.items() if k not in KINDKEYS},
+        "fields": {k: v for k, v in c.items() if k not in ("action_type", "message_type")},  # (action_status is an ordinary field of a message)
         "level": node.task_level.as_list(),
     }
 
